@@ -1,0 +1,171 @@
+//go:build verif
+
+package actionlint
+
+import (
+	"fmt"
+	"hash/fnv"
+	"io"
+	"reflect"
+	"regexp"
+	"sort"
+)
+
+// This file exists only with the "verif" build tag. It gives the verification harness read access
+// to the package-level tables which must never be modified by linting.
+
+func verifHashValue(w io.Writer, v reflect.Value, depth int, seen map[uintptr]bool) {
+	if depth > 64 {
+		io.WriteString(w, "<deep>")
+		return
+	}
+	if !v.IsValid() {
+		io.WriteString(w, "<invalid>")
+		return
+	}
+	if v.CanInterface() {
+		if re, ok := v.Interface().(*regexp.Regexp); ok && re != nil {
+			fmt.Fprintf(w, "regexp(%q)", re.String())
+			return
+		}
+	}
+	switch v.Kind() {
+	case reflect.Ptr:
+		if v.IsNil() {
+			io.WriteString(w, "<nil>")
+			return
+		}
+		p := v.Pointer()
+		if seen[p] {
+			io.WriteString(w, "<cycle>")
+			return
+		}
+		seen[p] = true
+		io.WriteString(w, "&")
+		verifHashValue(w, v.Elem(), depth+1, seen)
+		delete(seen, p)
+	case reflect.Interface:
+		if v.IsNil() {
+			io.WriteString(w, "<nil>")
+			return
+		}
+		fmt.Fprintf(w, "(%s)", v.Elem().Type().String())
+		verifHashValue(w, v.Elem(), depth+1, seen)
+	case reflect.Struct:
+		io.WriteString(w, "{")
+		for i := 0; i < v.NumField(); i++ {
+			fmt.Fprintf(w, "%s:", v.Type().Field(i).Name)
+			verifHashValue(w, v.Field(i), depth+1, seen)
+			io.WriteString(w, ";")
+		}
+		io.WriteString(w, "}")
+	case reflect.Slice, reflect.Array:
+		if v.Kind() == reflect.Slice && v.IsNil() {
+			io.WriteString(w, "<nilslice>")
+			return
+		}
+		fmt.Fprintf(w, "[%d:", v.Len())
+		for i := 0; i < v.Len(); i++ {
+			verifHashValue(w, v.Index(i), depth+1, seen)
+			io.WriteString(w, ",")
+		}
+		io.WriteString(w, "]")
+	case reflect.Map:
+		if v.IsNil() {
+			io.WriteString(w, "<nilmap>")
+			return
+		}
+		keys := v.MapKeys()
+		ks := make([]string, len(keys))
+		idx := make(map[string]reflect.Value, len(keys))
+		for i, k := range keys {
+			s := verifKeyString(k)
+			ks[i] = s
+			idx[s] = k
+		}
+		sort.Strings(ks)
+		fmt.Fprintf(w, "map[%d:", len(ks))
+		for _, s := range ks {
+			fmt.Fprintf(w, "%q=>", s)
+			verifHashValue(w, v.MapIndex(idx[s]), depth+1, seen)
+			io.WriteString(w, ",")
+		}
+		io.WriteString(w, "]")
+	case reflect.String:
+		fmt.Fprintf(w, "%q", v.String())
+	case reflect.Bool:
+		fmt.Fprintf(w, "%v", v.Bool())
+	case reflect.Int, reflect.Int8, reflect.Int16, reflect.Int32, reflect.Int64:
+		fmt.Fprintf(w, "%d", v.Int())
+	case reflect.Uint, reflect.Uint8, reflect.Uint16, reflect.Uint32, reflect.Uint64, reflect.Uintptr:
+		fmt.Fprintf(w, "%d", v.Uint())
+	case reflect.Float32, reflect.Float64:
+		fmt.Fprintf(w, "%g", v.Float())
+	case reflect.Func:
+		if v.IsNil() {
+			io.WriteString(w, "<nilfunc>")
+		} else {
+			io.WriteString(w, "<func>")
+		}
+	default:
+		fmt.Fprintf(w, "<%s>", v.Kind())
+	}
+}
+
+func verifKeyString(k reflect.Value) string {
+	switch k.Kind() {
+	case reflect.String:
+		return k.String()
+	case reflect.Int, reflect.Int8, reflect.Int16, reflect.Int32, reflect.Int64:
+		return fmt.Sprintf("%020d", k.Int())
+	case reflect.Uint, reflect.Uint8, reflect.Uint16, reflect.Uint32, reflect.Uint64, reflect.Uintptr:
+		return fmt.Sprintf("%020d", k.Uint())
+	case reflect.Bool:
+		return fmt.Sprintf("%v", k.Bool())
+	}
+	if k.CanInterface() {
+		return fmt.Sprintf("%v", k.Interface())
+	}
+	return "<key>"
+}
+
+func verifHashOf(x interface{}) string {
+	h := fnv.New64a()
+	verifHashValue(h, reflect.ValueOf(x), 0, map[uintptr]bool{})
+	return fmt.Sprintf("%016x", h.Sum64())
+}
+
+// VerifTableFingerprints returns an order-sensitive deep hash per built-in table. Slices are hashed
+// in their current order so that in-place sorting is visible. It must be called only while no
+// linting is running.
+func VerifTableFingerprints() map[string]string {
+	avail := map[string][]string{}
+	for _, k := range allWorkflowKeys {
+		c, f := WorkflowKeyAvailability(k)
+		avail[k+"|ctx"] = c
+		avail[k+"|fn"] = f
+	}
+	return map[string]string{
+		"AllWebhookTypes":                   verifHashOf(AllWebhookTypes),
+		"SpecialFunctionNames":              verifHashOf(SpecialFunctionNames),
+		"allWorkflowKeys":                   verifHashOf(allWorkflowKeys),
+		"WorkflowKeyAvailability":           verifHashOf(avail),
+		"BuiltinUntrustedInputs":            verifHashOf(BuiltinUntrustedInputs),
+		"BuiltinFuncSignatures":             verifHashOf(BuiltinFuncSignatures),
+		"BuiltinGlobalVariableTypes":        verifHashOf(BuiltinGlobalVariableTypes),
+		"PopularActions":                    verifHashOf(PopularActions),
+		"OutdatedPopularActionSpecs":        verifHashOf(OutdatedPopularActionSpecs),
+		"BrandingColors":                    verifHashOf(BrandingColors),
+		"BrandingIcons":                     verifHashOf(BrandingIcons),
+		"allPermissionScopes":               verifHashOf(allPermissionScopes),
+		"allGitHubHostedRunnerLabels":       verifHashOf(allGitHubHostedRunnerLabels),
+		"selfHostedRunnerPresetOSLabels":    verifHashOf(selfHostedRunnerPresetOSLabels),
+		"selfHostedRunnerPresetOtherLabels": verifHashOf(selfHostedRunnerPresetOtherLabels),
+		"defaultRunnerOSCompats":            verifHashOf(defaultRunnerOSCompats),
+	}
+}
+
+// VerifHashConfig returns a deep hash of a configuration object (nil allowed).
+func VerifHashConfig(c *Config) string {
+	return verifHashOf(c)
+}
